@@ -17,7 +17,10 @@
   SparseKDE._computes_localized_bandwidth (the per-grid-point loop, modular over the callees above): in every iteration the population is measured around THIS grid point on the
       grid with the grid weights, the configured cell and its current width; with fpoints > 0 the width is tuned by the fraction of points (tolerance one descriptor, global scale
       = trace of the grid covariance), otherwise it is re-localised on the nearest-grid distance exactly when it is below the measured population; the bandwidth is estimated for
-      this grid point from the (tuned) local weights and stored with its covariance in slot i.  _tune_localization_factor_based_on_fraction_of_spread: the width of this grid point
+      this grid point from the (tuned) local weights and stored with its covariance in slot i.  _tune_localization_factor_based_on_fraction_of_points (both while loops cut with
+      an invariant; PARTIAL correctness - its termination is the recorded finding): whenever it returns, the returned population and local weights are those of the returned width
+      around this grid point, the population is within the tolerance of the target (the fraction of points, or the own weight plus the tolerance when that is larger), the other grid
+      points are untouched.  _tune_localization_factor_based_on_fraction_of_spread: the width of this grid point
       becomes its nearest-grid distance and the population is re-measured around this grid point (repaired defect 14e9ec4: it used to pass all descriptors and the whole grid).
   SparseKDE._bandwidth_inv / _normkernels (cached properties): entry j is inv(bandwidth_[j]) / d*log(2 pi) + log|det bandwidth_[j]|, computed once after a fit and
       served from the cache afterwards; not available before fit.
@@ -601,7 +604,51 @@ def u_localized_bandwidth(mode):
     lc = LoopContract(inv, hints=hints)
     return Unit(f'SparseKDE._computes_localized_bandwidth[{mode}]', body, funcs=funcs, loops={(q, 0): lc}, functions=[q])
 
-UNITS = [lambda: u_mixture(False), lambda: u_mixture(True), lambda: u_tune_spread(False), lambda: u_tune_spread(True), lambda: u_localized_bandwidth('fpoints'), lambda: u_localized_bandwidth('fspread'), lambda: u_local_population(False), lambda: u_local_population(True), lambda: u_oas(), lambda: u_covariance(), lambda: u_bandwidth()] + [(lambda w, s_: (lambda: u_cached(w, s_)))(w, s_) for w in ('_bandwidth_inv', '_normkernels') for s_ in ('unfitted', 'first', 'cached')]
+LPNUM = z3.Function('LPNUM', RealS, RealS); LPWL = z3.Function('LPWL', RealS, IntS, RealS)      # population / local weights around the tuned grid point as functions of the width
+
+def u_tune_points():
+    """partial correctness of the bisection (its termination is the recorded finding): whenever it returns, the returned population and local weights are those of the returned
+    width around this grid point, the population is within delta of the target, and nothing else was touched"""
+    q = KD + '._tune_localization_factor_based_on_fraction_of_points'
+    def lp_fn_contract():
+        def make_result(I, F):
+            c = I.cur; s2 = to_real(tz(F['sigma_squared']))
+            ok = And(BoolVal(F['cell'] is c['cell'] and F['grid_j'].id == c['X'].id and F['grid_j_weight'].id == c['sw'].id), is_row_of(I, F['grid_i'], c['X'], c['idx']))
+            I.ob('pre-at-call:_local_population:measured-around-this-grid-point-on-the-grid-with-the-grid-weights-and-the-configured-cell', ok, kind='post')
+            g = I.A(F['grid_j']).shape[0]
+            wl = I.new_arr(ArrVal((g,), (lambda s2: lambda k: LPWL(s2, tz(k)))(s2), RealS))
+            return (wl, LPNUM(s2))
+        return FuncContract(make_result=make_result)
+    def inv(I, F, it, gh):
+        c = I.cur; S, Fl = I.A(F['sigma2']), I.A(F['flocal']); a = Int('a!t'); idx = c['idx']
+        out = [('[C17]the-stored-population-is-that-of-the-stored-width', Fl.elem(idx) == LPNUM(S.elem(idx))),
+               ('[C17]one-width-and-one-population-per-grid-point', And(tz(S.shape[0]) == c['g'], tz(Fl.shape[0]) == c['g'])),
+               ('[C17]the-other-grid-points-are-not-touched', ForAll([a], Implies(And(0 <= a, a < c['g'], a != idx), And(S.elem(a) == c['S0'].elem(a), Fl.elem(a) == c['F0'].elem(a))), patterns=[S.elem(a)]))]
+        return out
+    def body(I):
+        g, d, n = I.fresh('g', IntS), I.fresh('d', IntS), I.fresh('n', IntS); I.assume(And(g >= 1, d >= 1, n >= 1))
+        X = I.fresh_arr('grid', (g, d)); sw = I.fresh_arr('grid_weights', (g,)); s2 = I.fresh_arr('sigma2', (g,)); fl = I.fresh_arr('flocal', (g,)); D = I.fresh_arr('descriptors', (n, d))
+        idx = I.fresh('idx', IntS); I.assume(And(0 <= idx, idx < g))
+        delta, tune, fp = I.fresh('delta', RealS), I.fresh('tune', RealS), I.fresh('fpoints', RealS); I.assume(And(delta > 0, tune > 0, fp > 0))
+        I.cur = dict(cell=None, X=X, sw=sw, idx=idx, g=g, S0=I.A(s2), F0=I.A(fl))
+        I.assume(I.A(fl).elem(idx) == LPNUM(I.A(s2).elem(idx)))          # requires: the caller has just measured the population for the current width (call site in _computes_localized_bandwidth)
+        cls = I.repo.get(KD); me = I.new_obj(cls, dict(cell=None, descriptors=D, fpoints=fp))
+        r = I.call_func(I.find_method(cls, '_tune_localization_factor_based_on_fraction_of_points'), [me, X, sw, s2, fl, idx, delta, tune], {})
+        rs2, rfl, rwl = r
+        S1, F1 = I.A(rs2), I.A(rfl)
+        I.ob('post[C17]:widths-and-populations-are-updated-in-place-and-returned', BoolVal(rs2.id == s2.id and rfl.id == fl.id), kind='post')
+        I.ob('post[C17]:the-returned-population-is-that-of-the-returned-width', F1.elem(idx) == LPNUM(S1.elem(idx)), kind='post')
+        k = I.fresh('k', IntS); I.assume(And(0 <= k, k < g))
+        I.ob('post[C17]:the-returned-local-weights-are-those-of-the-returned-width', BoolVal(isinstance(rwl, ArrRef)) if not isinstance(rwl, ArrRef) else I.A(rwl).elem(k) == LPWL(S1.elem(idx), k), kind='post')
+        w_i = to_real(I.A(sw).elem(idx)); lim = If(fp <= w_i, w_i + delta, fp)
+        dev = F1.elem(idx) - lim
+        I.ob('post[C17]:the-returned-population-is-within-the-tolerance-of-the-target (the fraction of points, or the own weight plus the tolerance when that is larger)', And(dev < delta, -dev < delta), kind='post')
+        a = I.fresh('a', IntS); I.assume(And(0 <= a, a < g, a != idx))
+        I.ob('post[C17]:the-other-grid-points-are-not-touched', And(S1.elem(a) == I.cur['S0'].elem(a), F1.elem(a) == I.cur['F0'].elem(a)), kind='post')
+    return Unit('SparseKDE._tune_localization_factor_based_on_fraction_of_points', body, funcs={SK + '._local_population': lp_fn_contract()},
+                loops={(q, 0): LoopContract(inv), (q, 1): LoopContract(inv)}, functions=[q])
+
+UNITS = [lambda: u_mixture(False), lambda: u_mixture(True), lambda: u_tune_points(), lambda: u_tune_spread(False), lambda: u_tune_spread(True), lambda: u_localized_bandwidth('fpoints'), lambda: u_localized_bandwidth('fspread'), lambda: u_local_population(False), lambda: u_local_population(True), lambda: u_oas(), lambda: u_covariance(), lambda: u_bandwidth()] + [(lambda w, s_: (lambda: u_cached(w, s_)))(w, s_) for w in ('_bandwidth_inv', '_normkernels') for s_ in ('unfitted', 'first', 'cached')]
 RT = False
 TRUSTED = ["finite-sum functionals SUMD / SUMARR, exp, log, matrix inverse and log|det| uninterpreted functions of their arguments: equal arguments give equal values (congruence on identical lambda terms)",
            "mixture loop: scipy.special.logsumexp as 'expn(result) = sum of expn(entries)' with expn(-inf) = 0; law of boolean-mask selection and finite sums (summing h over the members selected by a mask, in order, = summing over all members h where the mask holds and 0 elsewhere; assumed as an instance, conditional on the proved fact that the code's mask is the documented one); "
